@@ -97,7 +97,7 @@ def gen_flagset(rng, schema):
             except B.Refused:
                 pass
             if target is not None and target[0] == "str":
-                val = rng.choice(["x", "release", "rc1", "007", "A-b", "5", "-3"])
+                val = rng.choice(["x", "release", "rc1", "007", "A-b", "5"])      # ("-3" as the text of a literal: the statement does not say whether that is refused)
             else:
                 val = rng.choice(["0", "1", "5", "42", "4294967295", "4294967296", "x", "-1", "1.5", "٣"])
                 if rng.random() < 0.85:
@@ -114,6 +114,12 @@ def gen_flagset(rng, schema):
                     fs.groups.append(["--bump-%s=%s=%s" % (SEC_FLAG[sec], idx, val)])
                 if idx.startswith("~"):
                     fs.tilde_bump = True
+    # option spellings: `--flag value` in two tokens is the same request as `--flag=value` (kept joined where the value starts with `-`)
+    for g in fs.groups:
+        if len(g) == 1 and "=" in g[0] and rng.random() < 0.25:
+            flag, val = g[0].split("=", 1)
+            if val and not val.startswith("-"):
+                g[:] = [flag, val]
     return fs
 
 
